@@ -37,6 +37,9 @@
 //!      offsets into the supplementary object) are read with `read_offset`; pinned here as implemented
 //! A relocating read of a field that has no relocation is harmless with an offset-keyed `Relocate` (O1, O2, O4); a
 //! plain read of a field that has one (O3, O5) loses the relocation.
+//! O3 and O5 additionally have STRICT harnesses at the end of the file (`k_relocparse_f_gnu_secoff_data4`,
+//! `k_relocparse_f_fde_cie_pointer`) that FAIL on the pinned tree and are registered as known findings; native
+//! reproducers native/src/bin/f_reloc_2.rs (O3) and f_reloc_1.rs (O5).
 //!
 //! CBMC notes: a value that comes out of a `Result`-returning parser is merged with the error path and is no longer
 //! concrete for CBMC; parsers that continue on such a value (line program header -> instructions, CIE -> FDE) explore
@@ -1026,5 +1029,76 @@ fn k_relocparse_addr_stroffsets_entry() {
         let b = DebugStrOffsets::from(base).get_str_offset(format, DebugStrOffsetsBase(START), DebugStrOffsetsIndex(index));
         let r = DebugStrOffsets::from(rr).get_str_offset(format, DebugStrOffsetsBase(START), DebugStrOffsetsIndex(index));
         assert!(b.is_ok() && r.map(|o| o.0) == b.map(|o| o.0.wrapping_add(rel.ko as usize)));
+    }
+}
+
+// ---- FINDING harnesses: strict versions of the two observations that LOSE a relocation (O5, O3) ---------------------
+// They FAIL on the pinned tree and are registered as known findings; each has exactly one failing check, with a message
+// the known-finding entry is keyed on.  Native reproducers: native/src/bin/f_reloc_1.rs (O5), f_reloc_2.rs (O3).
+
+/// O5 strict: the `.debug_frame` FDE `CIE_pointer` is a section offset (DWARF 5 section 6.4.1; `write::FrameTable`
+/// emits it with `write_offset(.., SectionId::DebugFrame, ..)`, i.e. a recording writer writes 0 + a relocation), so the
+/// relocating reader must return `bare + ko`.  gimli reads it with `read_u32`/`read_u64` in `parse_cfi_entry_prefix`.
+#[kani::proof]
+#[kani::unwind(44)]
+fn k_relocparse_f_fde_cie_pointer() {
+    let mut data: [u8; 24] = kani::any();
+    if kani::any() {
+        data[0] = 20;
+        data[1] = 0;
+        data[2] = 0;
+        data[3] = 0;
+    } else {
+        let fixed: [u8; 12] = [0xff, 0xff, 0xff, 0xff, 12, 0, 0, 0, 0, 0, 0, 0];
+        let mut i = 0;
+        while i < 12 {
+            data[i] = fixed[i];
+            i += 1;
+        }
+    }
+    let base = EndianSlice::new(&data[..], RunTimeEndian::Little);
+    let rel = any_rel();
+    let bases = BaseAddresses::default();
+    let b = DebugFrame::from(base).partial_fde_from_offset(&bases, DebugFrameOffset(0)).map(|p| p.cie_offset().0);
+    let r = DebugFrame::from(RelocateReader::new(base, rel))
+        .partial_fde_from_offset(&bases, DebugFrameOffset(0))
+        .map(|p| p.cie_offset().0);
+    if let (Ok(b), Ok(r)) = (b, r) {
+        assert!(r == b.wrapping_add(rel.ko as usize), "O5: .debug_frame FDE CIE_pointer is not relocated (read with read_u32/read_u64)");
+    }
+}
+
+/// O3 strict: DW_FORM_data4 in a 32-bit DWARF 2/3 unit with one of the GNU pointer attributes.  GCC emits
+/// DW_AT_GNU_macros (`-g3`), DW_AT_GNU_locviews (`-gvariable-location-views`), DW_AT_GNU_ranges_base and
+/// DW_AT_GNU_addr_base (`-gsplit-dwarf`) as data4 + relocation when `dwarf_version < 4` (dwarf2out.c `value_format`:
+/// lineptr / macptr / loclistptr classes fall through to `DW_FORM_data4`), exactly like DW_AT_macro_info / DW_AT_ranges,
+/// which `allow_section_offset` lists.  The value must come back as `bare + ko`.
+#[kani::proof]
+#[kani::unwind(24)]
+fn k_relocparse_f_gnu_secoff_data4() {
+    let mut env = any_env(5, true);
+    env.enc.format = Format::Dwarf32;
+    env.enc.version = if kani::any() { 2 } else { 3 };
+    let name = if kani::any() {
+        DW_AT_GNU_macros
+    } else if kani::any() {
+        DW_AT_GNU_locviews
+    } else if kani::any() {
+        DW_AT_GNU_ranges_base
+    } else {
+        DW_AT_GNU_addr_base
+    };
+    let base = EndianSlice::new(&env.data[..], env.endian);
+    let bare = base.range(START..START + env.n);
+    let mut rr = RelocateReader::new(base, env.rel);
+    rr.skip(START).unwrap();
+    rr.truncate(env.n).unwrap();
+    let abbrevs = ManuallyDrop::new(Abbreviations::default());
+    let spec = AttributeSpecification::new(name, DW_FORM_data4, None);
+    let (b, _, _) = read_one(bare, env.enc, &abbrevs, spec);
+    let (r, _, _) = read_one(rr, env.enc, &abbrevs, spec);
+    if let (Ok((_, _, bv)), Ok((_, _, rv))) = (b, r) {
+        let as_offset = rv == Norm { num: (bv.num as usize).wrapping_add(env.rel.ko as usize) as u128, ..bv };
+        assert!(as_offset, "O3: DW_FORM_data4 section offset of a GNU pointer attribute in a DWARF 2/3 unit is not relocated (missing in allow_section_offset)");
     }
 }
